@@ -41,6 +41,7 @@ import (
 	"github.com/LiskHQ/lisk-engine/pkg/consensus/validator"
 	"github.com/LiskHQ/lisk-engine/pkg/crypto"
 	"github.com/LiskHQ/lisk-engine/pkg/db"
+	"github.com/LiskHQ/lisk-engine/pkg/db/diffdb"
 	"github.com/LiskHQ/lisk-engine/pkg/labi"
 	"github.com/LiskHQ/lisk-engine/pkg/log"
 	"github.com/LiskHQ/lisk-engine/pkg/p2p"
@@ -758,6 +759,30 @@ func Digest(d []KV) string {
 }
 
 func (n *Node) DumpDigest() string { return Digest(n.Dump()) }
+
+// Canon returns the dump with every stored revert diff (prefix 0x33) re-encoded in a canonical entry order: diffdb.Commit emits
+// the entries of a diff in Go map order, so the same step can store byte-different but equivalent diffs.
+func Canon(d []KV) []KV {
+	out := make([]KV, len(d))
+	copy(out, d)
+	for i, kv := range out {
+		if len(kv.K) >= 2 && kv.K[:2] == "33" {
+			raw, err := hex.DecodeString(kv.V)
+			if err != nil {
+				continue
+			}
+			df := &diffdb.Diff{}
+			if err := df.Decode(raw); err != nil {
+				continue
+			}
+			sort.Slice(df.Added, func(a, b int) bool { return string(df.Added[a]) < string(df.Added[b]) })
+			sort.Slice(df.Updated, func(a, b int) bool { return string(df.Updated[a].Key) < string(df.Updated[b].Key) })
+			sort.Slice(df.Deleted, func(a, b int) bool { return string(df.Deleted[a].Key) < string(df.Deleted[b].Key) })
+			out[i].V = hex.EncodeToString(df.Encode())
+		}
+	}
+	return out
+}
 
 // DiffKeys lists the keys whose value differs between two dumps (for failure reports).
 func DiffKeys(a, b []KV) []string {
